@@ -38,6 +38,7 @@ type c18Spec struct {
 	Refund  string `json:"refund"`  // to | other
 	NTokens int    `json:"ntokens"` // tokens carried by the call
 	FailAt  int    `json:"fail_at"` // index of the unconvertible token (token-disabled)
+	Memo    bool   `json:"memo,omitempty"` // the claim carries the "send, then call `to`" memo: the tokens go to the sender's account
 	// proposal
 	Kind string `json:"kind"` // error | evm-revert | evm-oog
 	N    int    `json:"n"`
@@ -98,6 +99,15 @@ func c18Cases(seed uint64, tier string) []core.Case {
 		}
 	}
 	out = append(out, c18IBCCases(rng, reps)...)
+	// calls with the "send, then call" memo: the tokens are credited to the sender's account and `to` is only called
+	for rep := 0; rep < reps; rep++ {
+		ch := chains[rep%len(chains)]
+		for _, tgt := range []string{"revert-late", "invalid"} {
+			for _, rf := range []string{"to", "other"} {
+				out = append(out, core.MkCase(fmt.Sprintf("C18-bridgecall-memo-%s-%s-%d", tgt, rf, rep), c18Spec{Seed: rng.Uint64() ^ 0x6e, Chain: ch, Mode: "bridgecall", Target: tgt, Refund: rf, NTokens: 2, Memo: true}))
+			}
+		}
+	}
 	// one of the tokens is an externally-owned pair whose ERC-20 contract has destroyed itself since it was
 	// registered (kept last as well)
 	for rep := 0; rep < reps; rep++ {
@@ -332,6 +342,22 @@ func c18BridgeCall(spec c18Spec, res *core.CaseResult, verbose bool) {
 	}
 	n, h := b.NextEvent()
 	in := fix.BridgeCallIn{Sender: sender.Hex(), Refund: refund, To: to, TxOrigin: sender.Hex(), Tokens: ext, Amounts: amts, Data: []byte{1, 2, 3}}
+	senderHeld := func(ctx sdk.Context) string {
+		var parts []string
+		for _, t := range toks {
+			parts = append(parts, c.Balance(ctx, sender.Acc(), t.Base).String()+"/"+c.ERC20Balance(ctx, t.ERC20, sender.Hex()).String())
+		}
+		return strings.Join(parts, ",")
+	}
+	if spec.Memo {
+		in.Memo = crosschaintypes.MemoSendCallTo.Bytes()
+		// the refund address already owns coins of the tokens (what a refund could wrongly be paid from)
+		for _, t := range toks {
+			fix.Fund(c, refund.Bytes(), sdk.NewCoin(t.Base, sdkmath.NewInt(5_000)))
+		}
+		res.Count("memo_send_call_to_cases", 1)
+	}
+	senderBefore := senderHeld(c.Ctx)
 	if err := b.Quorum(b.BridgeCallClaim(n, h, in)); err != nil {
 		res.Inconclusive = "quorum: " + err.Error()
 		return
@@ -408,6 +434,13 @@ func c18BridgeCall(spec c18Spec, res *core.CaseResult, verbose bool) {
 		}
 		if fmt.Sprint(got) != fmt.Sprint(want) || rc.Refund != fix.ExtAddr(spec.Chain, refund) || rc.EventNonce != n {
 			res.Violate("C18/refund-record-content"+sfx, "%s twin: refund call carries %v to %s for event %d, expected %v to %s for event %d", name, got, rc.Refund, rc.EventNonce, want, fix.ExtAddr(spec.Chain, refund), n)
+		}
+	}
+	if spec.Memo {
+		for name, x := range map[string]sdk.Context{"late-failure": ctxA, "entry-revert": ctxB} {
+			if got := senderHeld(x); got != senderBefore {
+				res.Violate("C18/failed-bridge-call-left-effects/memo-send-call-to", "%s twin: the call failed and its tokens were refunded, but the sender's own holdings (coins/ERC-20 per token) went %s -> %s", name, senderBefore, got)
+			}
 		}
 	}
 	// nothing of the failed sub-step survives: late failure == entry revert
